@@ -92,6 +92,7 @@ class Server:
         self.conns = []
         self.log = log
         self.on_sql_error = None  # callable(query, args, MySQLError): server-side (not injected) statement errors
+        self.after_stmt = None  # callable(conn, query, kind) after every successfully executed statement
         self.stats = {'lock_waits': 0, 'lock_timeouts': 0, 'statements': 0}
 
     async def lock(self, sess):
@@ -311,6 +312,9 @@ class Connection:
             self._after(kind, holding)
             raise
         self._after(kind, holding)
+        if srv.after_stmt is not None:
+            # lets a world place a fault right after a statement of an in-flight transaction (never draws a choice)
+            srv.after_stmt(self, query, kind)
         f = srv.fault('post', self)
         if f is not None:
             self._inject(f, applied=True)
@@ -340,6 +344,11 @@ class Connection:
             self.dead = True
             srv.kill_session(sess)
             raise OperationalError(2013, 'Lost connection to MySQL server during query')
+        if fault == 'fatal':
+            # a NON-transient server error before the statement ran (e.g. ER_OUT_OF_RESOURCES): the statement has no
+            # effect, the transaction stays open, the client library must NOT retry it
+            raise to_client_error(MySQLError(1041, 'Out of memory; check if mysqld or some other process uses all '
+                                                   'available memory'))
         raise AssertionError(fault)
 
     async def begin(self):
